@@ -76,7 +76,7 @@ func (p *parser) parseOperationDefinition() *OperationDefinition {
 }
 
 func (p *parser) parseOperationType() Operation {
-	tok := p.next()
+	tok, _ := p.expect(lexer.Name)
 	switch tok.Value {
 	case "query":
 		return Query
@@ -208,7 +208,7 @@ func (p *parser) parseFragment() Selection {
 	var def InlineFragment
 	def.Position = p.peekPos()
 	def.Comment = comment
-	if p.peek().Value == "on" {
+	if peek := p.peek(); peek.Kind == lexer.Name && peek.Value == "on" {
 		p.next() // "on"
 
 		def.TypeCondition = p.parseName()
